@@ -63,7 +63,7 @@ PtAssign == \E op \in {"add_ptv_assign", "sub_ptv_assign", "mul_ptv_assign", "ad
          /\ Do(PStep(op, d, d, 0, v % 2, v, pld, pplb, op \in {"add_ptc_assign", "sub_ptc_assign", "mul_ptc_assign"}))
 \* vector plaintexts given in limb form (znx), in the ciphertext's radix or in another one (refused for add / sub)
 PtZnx == \/ \E op \in {"add_ptz_into", "sub_ptz_into", "mul_ptz_into"}, d, a \in Regs, pld \in Plds, pplb \in Pplbs, v \in 0..1, pb \in {B, B - 1} :
-              /\ IsOk(a) /\ Alloc(d) /\ d # a /\ (op = "mul_ptz_into" => pb = B /\ (LastStep \/ NoSpare(a)))
+              /\ IsOk(a) /\ Alloc(d) /\ d # a /\ (op = "mul_ptz_into" => (LastStep \/ NoSpare(a)))
               /\ Do([PStep(op, d, a, 0, v, 0, pld, pplb, FALSE) EXCEPT !.pb = pb])
          \/ \E op \in {"add_ptz_assign", "sub_ptz_assign"}, d \in Regs, pld \in Plds, pplb \in Pplbs, v \in 0..1, pb \in {B, B - 1} :
               /\ IsOk(d) /\ Do([PStep(op, d, d, 0, v, 0, pld, pplb, FALSE) EXCEPT !.pb = pb])
